@@ -795,3 +795,281 @@ Proof.
   - apply (map_permA geqv geqv); [apply rt_round_geqv|]. apply (map_permA geqv geqv); [apply rt_calc_geqv|].
     apply category_groups_independent_of_row_order, P.
 Qed.
+
+(* ================================================================================================ *)
+(* Part 4 - the whole calculation: reordering lines, document discounts and document charges        *)
+(* ================================================================================================ *)
+(* `calculate` cut into its stages (calculate_unfold: by computation) *)
+Definition included_of (pit : bytes) (cats : list cat_total) : option amount :=
+  match pit with
+  | [] => None
+  | _ => match find_cat pit cats with
+         | Some ct => Some (precise_or (ct_precise ct) (ct_amount ct))
+         | None => None
+         end
+  end.
+
+Definition assemble (d : doc) (lcs : list line_calc) (sum : amount) (dds ccs : list (ddc * amount))
+    (discount charge : option amount) (cats : list cat_total) (taxsum : amount) (included : option amount) : totals :=
+  let c := d_c d in
+  let total0 := match discount with Some x => sub sum x | None => sum end in
+  let total1 := match charge with Some x => add total0 x | None => total0 end in
+  let taxsum_r := rescale taxsum c in
+  let total := match included with Some ti => sub total1 ti | None => total1 end in
+  let tax := precise_or taxsum taxsum_r in
+  let twt := add total tax in
+  let payable := match d_rounding d with Some r => add twt r | None => twt end in
+  let advs := map (advance_amount c twt) (d_advances d) in
+  let advances := sum_opt c advs in
+  let due := match advances with Some a => Some (sub payable a) | None => None end in
+  let R := fun a => rescale a c in
+  let Ro := fun o => match o with Some a => Some (rescale a c) | None => None end in
+  mkTotals (map present_line lcs) (R sum) (Ro discount) (Ro charge) (Ro included) (R total)
+           (R tax) (R twt) (R payable) (Ro advances) (Ro due)
+           (map (fun p => present_ddc c (fst p) (snd p)) dds)
+           (map (fun p => present_ddc c (fst p) (snd p)) ccs)
+           (map R advs) (map (due_amount c payable) (d_dues d))
+           cats taxsum_r taxsum.
+
+Definition calc_final (d : doc) (lcs : list line_calc) (sum : amount) (dds ccs : list (ddc * amount))
+    (tls2 : list tax_line) : totals :=
+  let c := d_c d in
+  let cr := d_currency_rule d in
+  let cats0 := map (ct_calc cr c) (base_totals cr c tls2) in
+  let cats := map (ct_round c) cats0 in
+  assemble d lcs sum dds ccs (sum_opt c (map snd dds)) (sum_opt c (map snd ccs)) cats
+           (fold_left (sum_step cr) cats0 (zero_of c)) (included_of (d_pit d) cats).
+
+Definition calc_rest (d : doc) (lcs : list line_calc) (sum : amount) (dds ccs : list (ddc * amount))
+    (tls : list tax_line) : calc_result :=
+  match tls with
+  | [] => NoTotals (map present_line lcs)
+  | _ => match remove_included_all (d_pit d) (map (prepare_tl (d_c d)) tls) with
+         | None => CalcError
+         | Some tls2 => Totals (calc_final d lcs sum dds ccs tls2)
+         end
+  end.
+
+Lemma calculate_unfold d :
+  calculate d =
+  match calc_lines (d_currency_rule d) (d_c d) (d_cur d) (d_rates d) (d_lines d) with
+  | None => CalcError
+  | Some lcs => calc_rest d lcs (doc_sum d lcs) (doc_ddc d lcs (d_discounts d)) (doc_ddc d lcs (d_charges d))
+                          (doc_rows d lcs)
+  end.
+Proof. reflexivity. Qed.
+
+(* the same document with its lines, document discounts and document charges in another order *)
+Definition reorder (d : doc) (ls : list line) (ds cs : list ddc) : doc :=
+  mkDoc (d_c d) (d_currency_rule d) (d_pit d) (d_cur d) ls ds cs (d_rates d) (d_advances d) (d_dues d) (d_rounding d).
+
+(* every figure equal; the lists of lines, of presented discounts / charges and of categories (and
+   the groups inside each category) equal up to order *)
+Definition totals_same_up_to_order (t t' : totals) : Prop :=
+  Permutation (t_lines t) (t_lines t') /\
+  t_sum t = t_sum t' /\ t_discount t = t_discount t' /\ t_charge t = t_charge t' /\
+  t_tax_included t = t_tax_included t' /\ t_total t = t_total t' /\ t_tax t = t_tax t' /\
+  t_twt t = t_twt t' /\ t_payable t = t_payable t' /\ t_advances t = t_advances t' /\ t_due t = t_due t' /\
+  Permutation (t_dd t) (t_dd t') /\ Permutation (t_cc t) (t_cc t') /\
+  t_adv_rows t = t_adv_rows t' /\ t_dues t = t_dues t' /\
+  PermutationA ceqv (t_cats t) (t_cats t') /\
+  t_taxsum t = t_taxsum t' /\ t_taxsum_precise t = t_taxsum_precise t'.
+
+Definition result_same_up_to_order (r r' : calc_result) : Prop :=
+  match r, r' with
+  | CalcError, CalcError => True
+  | NoTotals l, NoTotals l' => Permutation l l'
+  | Totals t, Totals t' => totals_same_up_to_order t t'
+  | _, _ => False
+  end.
+
+(* ---- the per-row stages commute with permutations ---- *)
+Lemma calc_lines_perm_combine cr c cur rates ls ls' :
+  Permutation ls ls' -> forall lcs, calc_lines cr c cur rates ls = Some lcs ->
+  exists lcs', calc_lines cr c cur rates ls' = Some lcs' /\ Permutation (combine lcs ls) (combine lcs' ls').
+Proof.
+  intros P. induction P as [|l ls ls' _ IH|l1 l2 ls|ls ls' ls'' _ IH1 _ IH2]; intros lcs H.
+  - exists lcs. split; [exact H|apply Permutation_refl].
+  - cbn [calc_lines] in *. destruct (calc_line cr c cur rates l) as [x|]; [|discriminate].
+    destruct (calc_lines cr c cur rates ls) as [xs|] eqn:E; [|discriminate].
+    injection H as <-. destruct (IH xs eq_refl) as (xs' & E' & P').
+    rewrite E'. exists (x :: xs'). split; [reflexivity|]. cbn [combine]. apply perm_skip. exact P'.
+  - cbn [calc_lines] in *. destruct (calc_line cr c cur rates l1) as [x1|]; destruct (calc_line cr c cur rates l2) as [x2|]; try discriminate;
+      destruct (calc_lines cr c cur rates ls) as [xs|]; try discriminate.
+    injection H as <-. exists (x1 :: x2 :: xs). split; [reflexivity|]. cbn [combine]. apply perm_swap.
+  - destruct (IH1 lcs H) as (l1 & E1 & P1). destruct (IH2 l1 E1) as (l2 & E2 & P2).
+    exists l2. split; [exact E2|eapply Permutation_trans; eauto].
+Qed.
+
+Lemma remove_included_all_perm pit l l' :
+  Permutation l l' -> forall r, remove_included_all pit l = Some r ->
+  exists r', remove_included_all pit l' = Some r' /\ Permutation r r'.
+Proof.
+  intros P. induction P as [|t l l' _ IH|t1 t2 l|l l' l'' _ IH1 _ IH2]; intros r H.
+  - exists r. split; [exact H|apply Permutation_refl].
+  - cbn [remove_included_all] in *. destruct (remove_included pit t) as [x|]; [|discriminate].
+    destruct (remove_included_all pit l) as [xs|] eqn:E; [|discriminate].
+    injection H as <-. destruct (IH xs eq_refl) as (xs' & E' & P').
+    rewrite E'. exists (x :: xs'). split; [reflexivity|apply perm_skip; exact P'].
+  - cbn [remove_included_all] in *. destruct (remove_included pit t1) as [x1|]; destruct (remove_included pit t2) as [x2|]; try discriminate;
+      destruct (remove_included_all pit l) as [xs|]; try discriminate.
+    injection H as <-. exists (x1 :: x2 :: xs). split; [reflexivity|apply perm_swap].
+  - destruct (IH1 r H) as (r1 & E1 & P1). destruct (IH2 r1 E1) as (r2 & E2 & P2).
+    exists r2. split; [exact E2|eapply Permutation_trans; eauto].
+Qed.
+
+(* ---- retention consistency only looks at the combos ---- *)
+Definition combos_consistent (cbs : list combo) : Prop :=
+  forall cb cb', In cb cbs -> In cb' cbs -> cb_cat cb = cb_cat cb' -> cb_retained cb = cb_retained cb'.
+
+Lemma retained_consistent_iff tls : retained_consistent tls <-> combos_consistent (flat_map tl_taxes tls).
+Proof.
+  unfold retained_consistent, combos_consistent. split.
+  - intros H cb cb' I1 I2. apply in_flat_map in I1, I2. destruct I1 as (tl & A & B). destruct I2 as (tl' & A' & B').
+    apply (H tl cb tl' cb'); assumption.
+  - intros H tl cb tl' cb' A B A' B'. apply H; apply in_flat_map; eauto.
+Qed.
+
+Lemma flat_map_taxes_eq tls tls' : map tl_taxes tls = map tl_taxes tls' -> flat_map tl_taxes tls = flat_map tl_taxes tls'.
+Proof. intros E. rewrite !flat_map_concat_map, E. reflexivity. Qed.
+
+Lemma prepared_taxes pit c tls tls2 : remove_included_all pit (map (prepare_tl c) tls) = Some tls2 ->
+  flat_map tl_taxes tls2 = flat_map tl_taxes tls.
+Proof.
+  intros E. apply flat_map_taxes_eq. rewrite (remove_included_all_taxes _ _ _ E), map_map.
+  apply map_ext. intros tl. apply (prepare_tl_spec c tl).
+Qed.
+
+(* ---- looking a category up in lists equal up to order ---- *)
+Lemma find_cat_permA code l l' : NoDup (map ct_code l') -> PermutationA ceqv l l' ->
+  forall ct, find_cat code l = Some ct -> exists ct', find_cat code l' = Some ct' /\ ceqv ct ct'.
+Proof.
+  intros N P ct E. destruct (find_cat_some _ _ _ E) as [Ict C].
+  assert (IA : InA ceqv ct l') by (apply (PermutationA_equivlistA ceqv_equiv P), In_InA; [exact ceqv_equiv|exact Ict]).
+  apply InA_alt in IA. destruct IA as (ct' & Ec & Ict'). exists ct'. split; [|exact Ec].
+  rewrite <- C. destruct Ec as (Ec & _). rewrite Ec. apply find_cat_nodup; assumption.
+Qed.
+
+Lemma calc_codes cr c cts : map ct_code (map (ct_round c) (map (ct_calc cr c) cts)) = map ct_code cts.
+Proof. rewrite !map_map. apply map_ext. reflexivity. Qed.
+
+Lemma included_of_permA pit l l' : NoDup (map ct_code l) -> NoDup (map ct_code l') -> PermutationA ceqv l l' ->
+  included_of pit l = included_of pit l'.
+Proof.
+  intros N N' P. unfold included_of. destruct pit as [|b pit]; [reflexivity|].
+  destruct (find_cat (b :: pit) l) as [ct|] eqn:E.
+  - destruct (find_cat_permA _ l l' N' P ct E) as (ct' & -> & (_ & _ & A & _ & B & _)). rewrite A, B. reflexivity.
+  - destruct (find_cat (b :: pit) l') as [ct'|] eqn:E'; [|reflexivity].
+    assert (P' : PermutationA ceqv l' l) by (symmetry; exact P).
+    destruct (find_cat_permA _ l' l N P' ct' E') as (ct & Ec & _). congruence.
+Qed.
+
+(* ---- the final stage ---- *)
+Lemma calc_final_perm d lcs lcs' sum dds dds' ccs ccs' tls2 tls2' :
+  Permutation lcs lcs' -> Permutation dds dds' -> Permutation ccs ccs' -> Permutation tls2 tls2' ->
+  retained_consistent tls2 ->
+  totals_same_up_to_order (calc_final d lcs sum dds ccs tls2) (calc_final d lcs' sum dds' ccs' tls2').
+Proof.
+  intros Pl Pd Pc Pt H. unfold calc_final. cbv zeta.
+  set (c := d_c d). set (cr := d_currency_rule d).
+  destruct (tax_summary_independent_of_row_order cr c tls2 tls2' Pt H) as [PC ES]. cbv zeta in PC.
+  rewrite <- ES.
+  rewrite <- (sum_opt_perm c (map snd dds) (map snd dds')) by (apply Permutation_map, Pd).
+  rewrite <- (sum_opt_perm c (map snd ccs) (map snd ccs')) by (apply Permutation_map, Pc).
+  rewrite <- (included_of_permA (d_pit d) _ _) with (3 := PC).
+  2:{ rewrite calc_codes. apply groups_pairwise_distinct. }
+  2:{ rewrite calc_codes. apply groups_pairwise_distinct. }
+  unfold assemble, totals_same_up_to_order. cbv zeta.
+  cbn [t_lines t_sum t_discount t_charge t_tax_included t_total t_tax t_twt t_payable t_advances t_due t_dd t_cc
+       t_adv_rows t_dues t_cats t_taxsum t_taxsum_precise].
+  repeat split; try reflexivity.
+  - apply Permutation_map, Pl.
+  - apply Permutation_map, Pd.
+  - apply Permutation_map, Pc.
+  - exact PC.
+Qed.
+
+Lemma calc_rest_perm d lcs lcs' sum dds dds' ccs ccs' tls tls' :
+  Permutation lcs lcs' -> Permutation dds dds' -> Permutation ccs ccs' -> Permutation tls tls' ->
+  retained_consistent tls ->
+  result_same_up_to_order (calc_rest d lcs sum dds ccs tls) (calc_rest d lcs' sum dds' ccs' tls').
+Proof.
+  intros Pl Pd Pc Pt H. unfold calc_rest.
+  destruct tls as [|t0 ts] eqn:Et.
+  { apply Permutation_nil in Pt. subst tls'. cbn [result_same_up_to_order]. apply Permutation_map, Pl. }
+  destruct tls' as [|t0' ts'] eqn:Et'.
+  { apply Permutation_sym, Permutation_nil in Pt. discriminate. }
+  rewrite <- Et, <- Et' in *. clear Et Et' t0 ts t0' ts'.
+  assert (Pp : Permutation (map (prepare_tl (d_c d)) tls) (map (prepare_tl (d_c d)) tls')) by (apply Permutation_map, Pt).
+  destruct (remove_included_all (d_pit d) (map (prepare_tl (d_c d)) tls)) as [tls2|] eqn:E.
+  - destruct (remove_included_all_perm _ _ _ Pp tls2 E) as (tls2' & -> & P2).
+    cbn [result_same_up_to_order]. apply calc_final_perm; try assumption.
+    apply retained_consistent_iff. rewrite (prepared_taxes _ _ _ _ E). apply retained_consistent_iff, H.
+  - destruct (remove_included_all (d_pit d) (map (prepare_tl (d_c d)) tls')) as [tls2'|] eqn:E'; [|exact I].
+    destruct (remove_included_all_perm _ _ _ (Permutation_sym Pp) tls2' E') as (x & Ex & _). congruence.
+Qed.
+
+(* ---- the rows handed to the tax calculator ---- *)
+Lemma tax_lines_perm lcs ls lcs' ls' dd dd' cc cc' :
+  Permutation (combine lcs ls) (combine lcs' ls') -> Permutation dd dd' -> Permutation cc cc' ->
+  Permutation (tax_lines lcs ls dd cc) (tax_lines lcs' ls' dd' cc').
+Proof.
+  intros P1 P2 P3. unfold tax_lines. repeat apply Permutation_app; apply Permutation_map; assumption.
+Qed.
+
+Definition doc_combos (d : doc) : list combo :=
+  flat_map ln_taxes (d_lines d) ++ flat_map dd_taxes (d_discounts d) ++ flat_map dd_taxes (d_charges d).
+(* retention is a property of the category: two combos of the same category anywhere in the document
+   agree on it (in the implementation the flag is copied from the regime's category definition) *)
+Definition doc_retained_consistent (d : doc) : Prop := combos_consistent (doc_combos d).
+
+Lemma doc_rows_combos d lcs cb : In cb (flat_map tl_taxes (doc_rows d lcs)) -> In cb (doc_combos d).
+Proof.
+  unfold doc_rows, tax_lines, doc_combos, doc_ddc. rewrite !flat_map_app, !in_app_iff, !in_flat_map.
+  intros [(tl & I1 & I2)|[(tl & I1 & I2)|(tl & I1 & I2)]]; apply in_map_iff in I1.
+  - destruct I1 as ([lc l] & <- & I1). apply in_combine_r in I1. left. exists l. split; assumption.
+  - destruct I1 as ([x a] & <- & I1). apply in_map_iff in I1. destruct I1 as (y & Ey & I1). injection Ey as -> _.
+    right. left. exists x. split; assumption.
+  - destruct I1 as ([x a] & <- & I1). apply in_map_iff in I1. destruct I1 as (y & Ey & I1). injection Ey as -> _.
+    right. right. exists x. split; assumption.
+Qed.
+
+(* ---- main theorem, document level ---- *)
+Theorem calculate_independent_of_row_order d ls ds cs :
+  Permutation (d_lines d) ls -> Permutation (d_discounts d) ds -> Permutation (d_charges d) cs ->
+  doc_retained_consistent d ->
+  result_same_up_to_order (calculate d) (calculate (reorder d ls ds cs)).
+Proof.
+  intros Pl Pd Pc H. rewrite !calculate_unfold.
+  cbn [reorder d_c d_currency_rule d_cur d_rates d_lines d_discounts d_charges].
+  set (c := d_c d). set (cr := d_currency_rule d). set (d' := reorder d ls ds cs).
+  destruct (calc_lines cr c (d_cur d) (d_rates d) (d_lines d)) as [lcs|] eqn:EL.
+  - destruct (calc_lines_perm_combine cr c _ _ _ _ Pl lcs EL) as (lcs' & EL' & PC). rewrite EL'.
+    assert (PL : Permutation lcs lcs').
+    { destruct (calc_lines_perm cr c _ _ _ _ Pl lcs EL) as (x & Ex & Px). congruence. }
+    assert (ES : doc_sum d' lcs' = doc_sum d lcs).
+    { unfold doc_sum. apply fold_acc_perm, Permutation_map, Permutation_sym, PL. }
+    assert (PD : Permutation (doc_ddc d lcs (d_discounts d)) (doc_ddc d' lcs' ds)).
+    { unfold doc_ddc. rewrite ES. apply Permutation_map, Pd. }
+    assert (PCh : Permutation (doc_ddc d lcs (d_charges d)) (doc_ddc d' lcs' cs)).
+    { unfold doc_ddc. rewrite ES. apply Permutation_map, Pc. }
+    assert (PR : Permutation (doc_rows d lcs) (doc_rows d' lcs')).
+    { unfold doc_rows. apply tax_lines_perm; assumption. }
+    rewrite ES.
+    change (calc_rest d' lcs' (doc_sum d lcs) (doc_ddc d' lcs' ds) (doc_ddc d' lcs' cs) (doc_rows d' lcs'))
+      with (calc_rest d lcs' (doc_sum d lcs) (doc_ddc d' lcs' ds) (doc_ddc d' lcs' cs) (doc_rows d' lcs')).
+    apply calc_rest_perm; try assumption.
+    apply retained_consistent_iff. intros cb cb' I1 I2. apply H; apply (doc_rows_combos d lcs); assumption.
+  - destruct (calc_lines cr c (d_cur d) (d_rates d) ls) as [lcs'|] eqn:EL'; [|exact I].
+    destruct (calc_lines_perm cr c _ _ _ _ (Permutation_sym Pl) lcs' EL') as (x & Ex & _). congruence.
+Qed.
+
+Corollary totals_independent_of_row_order d ls ds cs t :
+  Permutation (d_lines d) ls -> Permutation (d_discounts d) ds -> Permutation (d_charges d) cs ->
+  doc_retained_consistent d -> calculate d = Totals t ->
+  exists t', calculate (reorder d ls ds cs) = Totals t' /\ totals_same_up_to_order t t'.
+Proof.
+  intros Pl Pd Pc H E. pose proof (calculate_independent_of_row_order d ls ds cs Pl Pd Pc H) as R.
+  rewrite E in R. destruct (calculate (reorder d ls ds cs)) as [|l'|t']; cbn [result_same_up_to_order] in R; try contradiction.
+  exists t'. split; [reflexivity|exact R].
+Qed.
